@@ -84,6 +84,12 @@ def cases(tier, rng):
                        "attach b %s id=%s" % (scen.PEER[t], ident), "recvw b " + W.tok(W.msg(two))]
                 out.append("s%d sock %s / %s" % (k, t, " / ".join(ops)))
                 k += 1
+    # real runtime, real TCP: a message of several MiB is read with more I/O operations than one turn's cooperative
+    # budget allows; recv (awaited in the root future of a multi-thread runtime) must still return it
+    for t in ("PULL", "DEALER", "ROUTER", "REP", "XPUB"):
+        for size in ((1 << 20, 5 << 20) if tier == "quick" else (1 << 20, 3 << 20, 5 << 20, 17 << 20)):
+            out.append("x%d rt %s / bind tcp4 / conn 0 / bigxchg 0 %d" % (k, t, size))
+            k += 1
     # a parked recv is woken by, and returns, a message that is complete although its last frame is empty
     for t in ("PULL", "SUB", "DEALER", "ROUTER", "REP", "XPUB"):
         for m in ([b"job", b""], [b""], [b"a", b"", b""]):
@@ -106,6 +112,10 @@ def compare_filter(line):
 def judge(line, obs, orc):
     if S.bad_obs(obs):
         return "implementation " + str(obs)[:80]
+    if line.split()[1] == "rt":
+        if not obs.endswith("=ok") or "X#0=ok" not in obs:
+            return "a large message over real TCP was not returned by recv in the root future of the runtime: " + obs[-80:]
+        return None
     if line.split()[1] == "sock":
         last = obs.split()[-1]
         if "lost-wakeup" in last:
